@@ -510,6 +510,24 @@ pub fn commit_path(name: &str, repo: &Url, commit_hash: &str) -> PathBuf {
         .join(commit_hash)
 }
 
+/// Verification hook (only with `--cfg fuellabs_sway_verif`): announces a step of `fetch`.
+/// `VERIF_GIT_TRACE=<file>` appends the point's name to the file; `VERIF_GIT_FAULT=<point>:abort`
+/// kills the process at the point, `VERIF_GIT_FAULT=<point>:error` makes the step fail.
+#[cfg(fuellabs_sway_verif)]
+fn verif_point(point: &str) -> Result<()> {
+    use std::io::Write;
+    if let Ok(trace) = std::env::var("VERIF_GIT_TRACE") {
+        if let Ok(mut f) = fs::OpenOptions::new().create(true).append(true).open(trace) {
+            let _ = writeln!(f, "{point}");
+        }
+    }
+    match std::env::var("VERIF_GIT_FAULT") {
+        Ok(f) if f == format!("{point}:abort") => std::process::abort(),
+        Ok(f) if f == format!("{point}:error") => bail!("injected I/O failure at {point}"),
+        _ => Ok(()),
+    }
+}
+
 /// Fetch the repo at the given git package's URL and checkout the pinned commit.
 ///
 /// Returns the location of the checked out commit.
@@ -518,6 +536,8 @@ pub fn commit_path(name: &str, repo: &Url, commit_hash: &str) -> PathBuf {
 /// to the git repository checkout path.
 pub fn fetch(fetch_id: u64, name: &str, pinned: &Pinned) -> Result<PathBuf> {
     let path = commit_path(name, &pinned.source.repo, &pinned.commit_hash);
+    #[cfg(fuellabs_sway_verif)]
+    verif_point("start")?;
     // Checkout the pinned hash to the path.
     with_tmp_git_repo(fetch_id, name, &pinned.source, |repo| {
         // Change HEAD to point to the pinned commit.
@@ -526,14 +546,24 @@ pub fn fetch(fetch_id: u64, name: &str, pinned: &Pinned) -> Result<PathBuf> {
 
         // If the directory exists, remove it. Note that we already check for an existing,
         // cached checkout directory for re-use prior to reaching the `fetch` function.
+        #[cfg(fuellabs_sway_verif)]
+        verif_point("remove")?;
         if path.exists() {
             let _ = fs::remove_dir_all(&path);
         }
+        #[cfg(fuellabs_sway_verif)]
+        verif_point("create_dir")?;
         fs::create_dir_all(&path)?;
 
         // Checkout HEAD to the target directory.
         let mut checkout = git2::build::CheckoutBuilder::new();
         checkout.force().target_dir(&path);
+        #[cfg(fuellabs_sway_verif)]
+        checkout.progress(|_, done, _| {
+            let _ = verif_point(&format!("file{done}"));
+        });
+        #[cfg(fuellabs_sway_verif)]
+        verif_point("checkout")?;
         repo.checkout_head(Some(&mut checkout))?;
 
         // Fetch HEAD time and create an index
@@ -549,10 +579,14 @@ pub fn fetch(fetch_id: u64, name: &str, pinned: &Pinned) -> Result<PathBuf> {
         );
 
         // Write the index file
+        #[cfg(fuellabs_sway_verif)]
+        verif_point("index")?;
         fs::write(
             path.join(".forc_index"),
             serde_json::to_string(&source_index)?,
         )?;
+        #[cfg(fuellabs_sway_verif)]
+        verif_point("done")?;
         Ok(())
     })?;
     Ok(path)
